@@ -190,6 +190,9 @@ class ExprCanon(ast.NodeTransformer):
                 test = beta_reduce(ast.Call(func=fn, args=[ref], keywords=[]))
             gen = ast.comprehension(target=ast.Name(id=var, ctx=ast.Store()), iter=coll, ifs=[test], is_async=0)
             return at(ast.GeneratorExp(elt=ast.Name(id=var, ctx=ast.Load()), generators=[gen]), node)
+        # f(x, **{}) -> f(x)
+        if any(k.arg is None and isinstance(k.value, ast.Dict) and not k.value.keys for k in node.keywords):
+            node.keywords = [k for k in node.keywords if not (k.arg is None and isinstance(k.value, ast.Dict) and not k.value.keys)]
         # f(**{'a': x, 'b': y}) -> f(a=x, b=y)
         if any(k.arg is None and isinstance(k.value, ast.Dict) and k.value.keys
                and all(isinstance(q, ast.Constant) and isinstance(q.value, str) and q.value.isidentifier() for q in k.value.keys)
@@ -541,6 +544,36 @@ def _canon_stmt(s, fresh=None) -> list:
         for t, v in zip(s.targets[0].elts, s.value.elts):
             parts.extend(_canon_stmt(at(ast.Assign(targets=[ast.Name(id=t.id, ctx=ast.Store())], value=v), s), fresh))
         return parts
+    # X.extend(E(m) for m in (a(), b()) if C(m))  ->  m_1 = a(); m_2 = b(); if C(m_1): X.append(E(m_1)); if C(m_2): X.append(E(m_2))
+    if isinstance(s, ast.Expr) and isinstance(s.value, ast.Call) and isinstance(s.value.func, ast.Attribute) and s.value.func.attr == 'extend' \
+            and isinstance(s.value.func.value, (ast.Name, ast.Attribute)) and len(s.value.args) == 1 and not s.value.keywords \
+            and isinstance(s.value.args[0], (ast.GeneratorExp, ast.ListComp)) and len(s.value.args[0].generators) == 1:
+        g_ = s.value.args[0].generators[0]
+        if isinstance(g_.target, ast.Name) and isinstance(g_.iter, (ast.Tuple, ast.List)) and 1 <= len(g_.iter.elts) <= 8 \
+                and not any(isinstance(e_, ast.Starred) for e_ in g_.iter.elts) and not g_.is_async:
+            used_ = {n.id for n in ast.walk(s) if isinstance(n, ast.Name)}
+            out_ = []
+            refs = []
+            for i_, e_ in enumerate(g_.iter.elts, 1):
+                if isinstance(e_, (ast.Name, ast.Constant)):
+                    refs.append(e_)
+                    continue
+                nm_ = f'{g_.target.id}_{i_}'
+                while nm_ in used_:
+                    nm_ += '_'
+                used_.add(nm_)
+                out_.append(at(ast.Assign(targets=[ast.Name(id=nm_, ctx=ast.Store())], value=e_), s))
+                refs.append(ast.Name(id=nm_, ctx=ast.Load()))
+            for r_ in refs:
+                sub = {g_.target.id: r_}
+                app = at(ast.Expr(value=ast.Call(func=ast.Attribute(value=_load(s.value.func.value), attr='append', ctx=ast.Load()),
+                                                 args=[Subst(sub).visit(clone(s.value.args[0].elt))], keywords=[])), s)
+                if g_.ifs:
+                    test = Subst(sub).visit(clone(_and(list(g_.ifs), s)))
+                    out_.append(at(ast.If(test=test, body=[app], orelse=[]), s))
+                else:
+                    out_.append(app)
+            return [ast.fix_missing_locations(x) for x in out_]
     # r = functools.reduce(f, X, init)  ->  r = init; for _x in X: r = f(r, _x)      (and the same for `return reduce(...)`)
     if isinstance(s, (ast.Return, ast.Assign)) and isinstance(getattr(s, 'value', None), ast.Call) \
             and ast.unparse(s.value.func) in ('functools.reduce', 'reduce') and len(s.value.args) == 3 and not s.value.keywords \
